@@ -1,10 +1,10 @@
-\* quick tier: 2 faults on the most concurrent shape (batch 2, 2 fetchers, 2 submitters), honest source (pairs with an empty page: MigrillianPages.cfg; all kinds together: MigrillianDeep2/Deep6.cfg)
+\* quick tier: 2 faults that concern get-entries pages (short reads, empty pages, fetch errors) and what may interleave with a pass failing on them (cancellation, lost mastership), on the most concurrent shape (batch 2, 2 fetchers, 2 submitters), no growth
 CONSTANTS
-  MaxIdx = 4
-  FaultKinds = {"short", "fetchErr", "quota", "fatal", "rootErr", "sthErr", "consErr", "cancel", "revoke"}
+  MaxIdx = 3
+  FaultKinds = {"short", "emptyPage", "fetchErr", "cancel", "revoke"}
   KeepHist = FALSE
   SrcSizes = {3}
-  Growths = {1}
+  Growths = {0}
   Batches = {2}
   FetcherCounts = {2}
   SubmitterCounts = {2}
